@@ -386,6 +386,11 @@ def assemble(unit_name, out_path=None):
             idx = len(extracted)
             text = r["text"].rstrip("\n")
             ls = r["line_src"]
+            if r.get("has_body", True):
+                # every extracted body is verified in its own solver process: its result does not depend on
+                # which other functions happen to be in the unit (stability against unrelated edits)
+                text = "#[verifier::spinoff_prover]\n" + text
+                ls = [0] + list(ls)
             start_gen = len(out_lines) + 1
             emit(text, lambda j, idx=idx, ls=ls, f=sp["file"]: {"kind": "extract", "item": idx, "src_file": f, "src_line": (ls[j] if j < len(ls) else 0)})
             extracted.append({
